@@ -129,15 +129,20 @@ type exec struct {
 	w       *udpsvc.World
 	up      *udpsvc.Upstream
 	spec    *udpsvc.Spec
-	svc     *udpsvc.Service
-	clients []*udpsvc.Client
+	svc     *svcHandle
+	clients []*hclient // the plan's sessions first (index = session id), then helpers and failers
+	nsess   int        // number of plan sessions
+	helpers map[int]*hclient
+	failers []*hclient
+	upName  string // peer topology with UpName: the name under which the relay's client reaches the upstream
+	nxName  string // the upstream name of the "bad" client: known to the owned resolver as a name without address (NXDOMAIN)
 	raws    []*udpsvc.RawSocket
 	names   []string
 
-	abort    atomic.Bool          // set at the first missed liveness bound: the run is void (retried or judged on safety only)
-	forbid   map[[2]uint32]string // (session, seq) of datagrams sent to a name while it did not resolve
-	once     map[[2]uint32]string // (session, seq) of datagrams that must be observed at their destination exactly once
-	atMost   map[[2]uint32]bool   // backlog datagrams beyond the send channel capacity: may be dropped
+	abort    atomic.Bool             // set at the first missed liveness bound: the run is void (retried or judged on safety only)
+	forbid   map[[2]uint32]forbidden // (session, seq) of datagrams that must be observed nowhere
+	once     map[[2]uint32]string    // (session, seq) of datagrams that must be observed at their destination exactly once
+	atMost   map[[2]uint32]bool      // backlog datagrams beyond the send channel capacity: may be dropped
 	mu       sync.Mutex
 	liveMiss []string
 	labels   map[string]bool
@@ -150,6 +155,13 @@ func (x *exec) miss(s string) {
 	x.mu.Lock()
 	x.liveMiss = append(x.liveMiss, s)
 	x.mu.Unlock()
+}
+
+// forbidden: why a datagram must not be observed. anywhere: not even at the upstream proxy (the relay must
+// not have a session for it at all); otherwise only target sockets count (a name the RELAY cannot resolve).
+type forbidden struct {
+	sig, why string
+	anywhere bool
 }
 
 type outcome struct {
@@ -165,13 +177,16 @@ type outcome struct {
 // directOut: names are resolved by the relay itself (direct client of the server or of the chained hop).
 func (x *exec) directOut() bool { return x.p.Topology != "peer" }
 
-func (x *exec) paceTo(c *udpsvc.Client, d, fill int, what string) bool {
+func (x *exec) paceTo(c *hclient, d, fill int, what string) bool {
 	if x.abort.Load() {
 		return false
 	}
 	seq, ok, attempts := c.Paced(d, fill, pacedWait, pacedTries)
 	if attempts > 1 {
 		x.label("paced-retried")
+		if envSet("VERIF_DEBUG") {
+			fmt.Fprintf(os.Stderr, "C11 paced retried: session %d seq %d dest %d (%s): %d datagrams\n", c.ID, seq, d, what, attempts)
+		}
 	}
 	if !ok {
 		x.miss(fmt.Sprintf("session %d seq %d to dest %d (%s, %s): no echo after %d datagrams", c.ID, seq, d, x.w.DestAddr(d), what, attempts))
@@ -180,7 +195,7 @@ func (x *exec) paceTo(c *udpsvc.Client, d, fill int, what string) bool {
 }
 
 // tour: one session changes its target again and again.
-func (x *exec) tour(c *udpsvc.Client, t *tourStops, fill int) {
+func (x *exec) tour(c *hclient, t *tourStops, fill int) {
 	step := func(d int, label string) bool {
 		if !x.paceTo(c, d, fill, label) {
 			return false
@@ -201,7 +216,7 @@ func (x *exec) tour(c *udpsvc.Client, t *tourStops, fill int) {
 		for i := 0; i < 2; i++ {
 			seq := c.NextSeq()
 			x.mu.Lock()
-			x.forbid[[2]uint32{uint32(c.ID), seq}] = x.p.Dests[t.F].Fail
+			x.forbid[[2]uint32{uint32(c.ID), seq}] = forbidden{sig: "unresolvable-name-datagram-delivered", why: "the resolver answered " + x.p.Dests[t.F].Fail + " for that name"}
 			x.mu.Unlock()
 			c.Send(seq, t.F, fill)
 		}
@@ -228,7 +243,7 @@ func (x *exec) tour(c *udpsvc.Client, t *tourStops, fill int) {
 // fits the send channel must reach its destination exactly once, in whatever batches the uplink forms;
 // the ones beyond the capacity may be dropped (never corrupted, duplicated or misdirected). After the
 // backlog has drained a few datagrams are written back to back: exactly once each.
-func (x *exec) backlog(c *udpsvc.Client, o planOp) {
+func (x *exec) backlog(c *hclient, o planOp) {
 	capacity := 1024
 	if x.p.SendChanCap != 0 {
 		capacity = x.p.SendChanCap
@@ -314,7 +329,7 @@ func (x *exec) backlog(c *udpsvc.Client, o planOp) {
 }
 
 // garbageFirst makes the first datagram of the client's current socket one the server cannot accept.
-func (x *exec) garbageFirst(c *udpsvc.Client, kind int) {
+func (x *exec) garbageFirst(c *hclient, kind int) {
 	var b []byte
 	if udpsvc.IsSS2022(x.p.ServerProto) {
 		// this session's own packet (its client session id is in the clear part), body damaged
@@ -337,7 +352,288 @@ func (x *exec) garbageFirst(c *udpsvc.Client, kind int) {
 	x.label("garbage-first:" + x.p.BatchMode)
 }
 
-func (x *exec) runOps(c *udpsvc.Client, ops []planOp, gf int) {
+func (x *exec) relayKind() string {
+	if udpsvc.IsSS2022(x.p.ServerProto) {
+		return "ss2022"
+	}
+	return "nat"
+}
+
+// sessClients are the clients of the plan's sessions (helpers and failers come after them).
+func (x *exec) sessClients() []*hclient {
+	if x.nsess == 0 || x.nsess > len(x.clients) {
+		return x.clients
+	}
+	return x.clients[:x.nsess]
+}
+
+func (x *exec) failDest(kind int) int {
+	if kind == failReject {
+		return x.p.RejectDest
+	}
+	return x.p.BadDest
+}
+
+// failFirst (round 6, gap 1): the first well-formed datagram(s) of the client's current socket (ss2022: of the
+// session) go to a destination for which the relay cannot set a session up - the router rejects it, or the
+// route's client cannot create a session. They must be observed nowhere, and the set-up that failed must
+// leave nothing behind: the valid datagrams the caller sends next from the same socket are relayed.
+func (x *exec) failFirst(c *hclient, kind int) {
+	d := x.failDest(kind)
+	if d <= 0 {
+		return
+	}
+	why := "the router rejects sessions that start with this destination"
+	name := "reject"
+	if kind == failBadClient {
+		why = "the route's client (" + x.p.BadClient + ") cannot create a session"
+		name = "badclient:" + x.p.BadClient
+	}
+	n := 1 + (int(c.ID)+c.NSocks())%2
+	q0 := udpsvc.NameQueries(x.nxName)
+	for i := 0; i < n; i++ {
+		seq := c.NextSeq()
+		x.mu.Lock()
+		x.forbid[[2]uint32{uint32(c.ID), seq}] = forbidden{sig: "datagram-of-failed-setup-delivered", why: why, anywhere: true}
+		x.mu.Unlock()
+		c.Send(seq, d, 8+i)
+	}
+	// give the failing set-up time to finish; a datagram that meets the dying entry is rightly dropped (the
+	// paced rule retransmits), this only keeps the scenario short
+	switch {
+	case envSet("VERIF_C11_FAILGAP_MS"):
+		time.Sleep(failGap())
+	case kind == failReject:
+		time.Sleep(time.Duration(30+30*(int(c.ID)%2)) * time.Millisecond)
+	case x.p.BadClient == "socks5-dead":
+		time.Sleep(60 * time.Millisecond)
+	default:
+		// the failing NewSession looks the upstream's name up: wait until the resolver has been asked
+		t0 := time.Now()
+		ok := udpsvc.WaitFor(400*time.Millisecond, func() bool { return udpsvc.NameQueries(x.nxName) > q0 })
+		if envSet("VERIF_DEBUG") {
+			fmt.Fprintf(os.Stderr, "C11 failFirst: session %d waited %v for a lookup of %s (seen=%v, queries %d -> %d)\n", c.ID, time.Since(t0).Round(time.Millisecond), x.nxName, ok, q0, udpsvc.NameQueries(x.nxName))
+		}
+		time.Sleep(30 * time.Millisecond)
+	}
+	x.label("setup-fail-then-valid:" + name)
+	x.label("setup-fail-then-valid:" + failKindName(kind) + ":" + x.relayKind() + ":" + x.p.BatchMode)
+	if x.p.ServerProto == "direct" {
+		x.label("setup-fail-then-valid:tunnel-server")
+	}
+}
+
+// upstreamDown makes the default client's NewSession fail for the duration of f: the name of its upstream
+// does not resolve (NXDOMAIN / SERVFAIL), or its SOCKS5 upstream answers UDP ASSOCIATE with a failure.
+// Established sessions are not affected. It reports whether the relay was seen trying (a lookup of the
+// name / a control connection) while the upstream was down, and waits for that before restoring.
+func (x *exec) upstreamDown(expect int, f func()) bool {
+	if x.up == nil {
+		f()
+		return false
+	}
+	var seen func() int64
+	switch {
+	case x.p.UpFail == "assoc-failure" && x.p.ClientProto == "socks5":
+		acc0, _ := x.up.ControlConns()
+		x.up.SetAssocScript(&udpsvc.AssocScript{Mode: "reply-failure"})
+		defer x.up.SetAssocScript(nil)
+		seen = func() int64 { a, _ := x.up.ControlConns(); return a - acc0 }
+	case x.upName != "":
+		udpsvc.SetName(x.upName, udpsvc.NameRule{Fail: x.p.UpFail == "servfail"}) // no IP: NXDOMAIN
+		defer udpsvc.SetName(x.upName, udpsvc.NameRule{IP: x.up.Addr.Addr()})
+		seen = func() int64 { return udpsvc.NameQueries(x.upName) }
+	default:
+		f()
+		return false
+	}
+	f()
+	ok := udpsvc.WaitFor(time.Second, func() bool { return seen() >= int64(expect) })
+	time.Sleep(25 * time.Millisecond) // the failing NewSession calls return
+	return ok || seen() > 0
+}
+
+// phase0 (failUpstreamDown): while the upstream is unavailable the flagged sessions send their first
+// datagram(s); the relay cannot create client sessions for them. Afterwards the same sockets carry on.
+func (x *exec) phase0() {
+	var cs []*hclient
+	for i, c := range x.sessClients() {
+		if x.p.Sessions[i].FailFirst == failUpstreamDown {
+			cs = append(cs, c)
+		}
+	}
+	if len(cs) == 0 || x.up == nil {
+		return
+	}
+	tried := x.upstreamDown(len(cs), func() {
+		for _, c := range cs {
+			s := x.p.Sessions[c.ID]
+			if s.GarbageFirst > 0 {
+				x.garbageFirst(c, s.GarbageFirst)
+			}
+			for i := 0; i < 1+int(c.ID)%2; i++ {
+				c.Send(c.NextSeq(), s.D1, 8+i)
+			}
+		}
+	})
+	if tried {
+		x.label("setup-fail-then-valid:upstream-down:" + x.p.UpFail)
+		x.label("setup-fail-then-valid:upstream-down:" + x.relayKind() + ":" + x.p.BatchMode)
+		if x.p.ServerProto == "direct" {
+			x.label("setup-fail-then-valid:tunnel-server")
+		}
+	}
+}
+
+// crowd (round 6, gap 2): failed set-ups, then bursts of several established, idle sessions at the same
+// time. A datagram of a burst whose index is below the send channel capacity always finds room (the channel
+// is empty when the burst starts and only this burst fills it), so it must be observed at its destination
+// exactly once; the others at most once. Content, destination and at-most-once are judged for all of them
+// by the general oracle.
+func (x *exec) crowd() {
+	cr := x.p.Crowd
+	cs := x.sessClients()
+	if len(cs) > cr.Clients {
+		cs = cs[:cr.Clients]
+	}
+	capacity := 1024
+	if x.p.SendChanCap != 0 {
+		capacity = x.p.SendChanCap
+	}
+	each := func(f func(i int, c *hclient)) {
+		var wg sync.WaitGroup
+		for i, c := range cs {
+			wg.Go(func() { f(i, c) })
+		}
+		wg.Wait()
+	}
+	// every participant idle, its send channel empty (the uplink is FIFO)
+	each(func(i int, c *hclient) { x.paceTo(c, x.p.Sessions[i].D1, 8, "before the crowd") })
+	if x.abort.Load() {
+		return
+	}
+	failed := false
+	sendFails := func() {
+		for _, f := range x.failers {
+			for i := 0; i < 1+int(f.ID)%2; i++ {
+				seq := f.NextSeq()
+				if cr.FailKind == failUpstreamDown {
+					f.Send(seq, x.p.Sessions[0].D1, 8)
+					continue
+				}
+				x.mu.Lock()
+				x.forbid[[2]uint32{uint32(f.ID), seq}] = forbidden{sig: "datagram-of-failed-setup-delivered", why: "no relay session can be set up for its destination (" + failKindName(cr.FailKind) + ")", anywhere: true}
+				x.mu.Unlock()
+				f.Send(seq, x.failDest(cr.FailKind), 8)
+			}
+		}
+	}
+	switch {
+	case len(x.failers) == 0:
+	case cr.FailKind == failUpstreamDown:
+		failed = x.upstreamDown(len(x.failers), sendFails)
+	default:
+		sendFails()
+		failed = true
+	}
+	if cr.GapMs > 0 {
+		time.Sleep(time.Duration(cr.GapMs) * time.Millisecond)
+	}
+	total := 0
+	type burst struct{ dests, fills []int }
+	bursts := make([]burst, len(cs))
+	for i, c := range cs {
+		s := x.p.Sessions[i]
+		n := cr.N[i%len(cr.N)]
+		b := burst{make([]int, n), make([]int, n)}
+		first := c.MaxSeq() + 1
+		bothIP := !x.p.Dests[s.D1].Name && !x.p.Dests[s.D2].Name
+		for k := 0; k < n; k++ {
+			b.dests[k] = s.D1
+			if (bothIP && k%2 == 1) || (!bothIP && k >= n/2) {
+				b.dests[k] = s.D2 // names: one change of name per burst (every change is a lookup with its scripted delay)
+			}
+			b.fills[k] = (cr.Fill + 131*k + 17*i) % 1300
+			key := [2]uint32{uint32(c.ID), first + uint32(k)}
+			x.mu.Lock()
+			if k < capacity {
+				x.once[key] = fmt.Sprintf("crowd-datagram-lost: datagram %d of a burst of %d written by session %d while %d sessions burst together (send channel capacity %d)", k, n, c.ID, len(cs), capacity)
+			} else {
+				x.atMost[key] = true
+			}
+			x.mu.Unlock()
+		}
+		bursts[i] = b
+		total += n
+	}
+	each(func(i int, c *hclient) { c.BurstFills(bursts[i].dests, bursts[i].fills) })
+	// drained: the uplink of a session is FIFO
+	each(func(i int, c *hclient) { x.paceTo(c, x.p.Sessions[i].D1, 8, "behind the crowd burst") })
+	kind := "no-failed-setup"
+	if failed {
+		kind = "after-failed-setup"
+		x.label("crowd-after-failed-setup:" + failKindName(cr.FailKind))
+	}
+	x.label("crowd-" + kind + ":" + x.relayKind() + ":" + x.p.BatchMode)
+	if len(cs) >= 4 {
+		x.label("crowd:clients>=4")
+	}
+	if total >= 400 {
+		x.label("crowd:datagrams-in-flight>=400")
+	}
+}
+
+// interleave (round 6, gap 3; wildcard listener): this session gets an echo through its relay address, then
+// ANOTHER client talks to the relay through a different local address (another 127.0.0.x, or ::1 against
+// 127.0.0.x on a dual-stack listener), then the destination sends more replies for this session and the
+// session sends again. Every reply is judged by the general oracle: it must leave from a relay address this
+// session has talked to at or after that datagram.
+func (x *exec) interleave(c *hclient, o planOp) {
+	h := x.helpers[int(c.ID)]
+	addrs := x.spec.RelayAddrs
+	if h == nil || len(addrs) < 2 {
+		return
+	}
+	mine := c.CurrentServer()
+	mixed := false
+	for round := 0; round < 2; round++ {
+		if !x.paceTo(c, o.Dest, o.Fill, "interleave: own datagram") {
+			return
+		}
+		// the other address: the last one first (::1 on a dual-stack listener)
+		var others []netip.AddrPort
+		for i := len(addrs) - 1; i >= 0; i-- {
+			if addrs[i] != mine {
+				others = append(others, addrs[i])
+			}
+		}
+		other := others[round%len(others)]
+		h.SetServer(other)
+		mixed = mixed || other.Addr().Is4() != mine.Addr().Is4()
+		for k := 0; k < 1+round; k++ {
+			if !x.paceTo(h, o.Dest, (o.Fill+7*k)%1300, "interleave: the other client") {
+				return
+			}
+		}
+		x.w.Flood(c.ID, max(1, o.N/2), 0, nil)
+		time.Sleep(10 * time.Millisecond)
+	}
+	if !x.paceTo(c, o.Dest, o.Fill, "interleave: own datagram after the other client's") {
+		return
+	}
+	x.label("pktinfo-interleave:" + x.relayKind() + ":" + x.p.BatchMode)
+	if mixed {
+		x.label("pktinfo-interleave:v4+v6:" + x.p.BatchMode)
+	}
+}
+
+func (x *exec) runOps(c *hclient, ops []planOp, sess planSession) {
+	gf := sess.GarbageFirst
+	// a fresh client socket is a fresh session only for the address-keyed relays
+	ff := 0
+	if (sess.FailFirst == failReject || sess.FailFirst == failBadClient) && !udpsvc.IsSS2022(x.p.ServerProto) {
+		ff = sess.FailFirst
+	}
 	for _, o := range ops {
 		if x.abort.Load() {
 			return
@@ -351,11 +647,22 @@ func (x *exec) runOps(c *udpsvc.Client, ops []planOp, gf int) {
 			if gf > 0 {
 				x.garbageFirst(c, gf)
 			}
+			if ff > 0 {
+				x.failFirst(c, ff)
+			}
+		case "interleave":
+			x.interleave(c, o)
 		case "relayswitch":
 			// talk to another local address of the relay: one echo (a reply batch of one), then the
 			// destination sends a burst of replies (a larger batch) - all must leave from the new address
 			addrs := x.spec.RelayAddrs
-			c.SetServer(addrs[len(c.Epochs())%len(addrs)])
+			next := addrs[len(c.Epochs())%len(addrs)]
+			if next == c.CurrentServer() {
+				next = addrs[(len(c.Epochs())+1)%len(addrs)]
+			}
+			if c.SetServer(next) {
+				x.label("relay-switch:other-family:" + x.relayKind())
+			}
 			if !x.paceTo(c, o.Dest, o.Fill, "after switching the relay address") {
 				return
 			}
@@ -374,6 +681,9 @@ func (x *exec) runOps(c *udpsvc.Client, ops []planOp, gf int) {
 			c.Rebind()
 			if gf > 0 {
 				x.garbageFirst(c, gf)
+			}
+			if ff > 0 {
+				x.failFirst(c, ff)
 			}
 			dests := make([]int, o.N)
 			fills := make([]int, o.N)
@@ -396,6 +706,9 @@ func (x *exec) runOps(c *udpsvc.Client, ops []planOp, gf int) {
 				seq, ok, attempts := c.Paced(d, o.Fill, pacedWait, pacedTries)
 				if attempts > 1 {
 					x.label("paced-retried")
+					if envSet("VERIF_DEBUG") {
+						fmt.Fprintf(os.Stderr, "C11 paced retried: session %d seq %d dest %d (op paced, socket %d): %d datagrams\n", c.ID, seq, d, c.NSocks()-1, attempts)
+					}
 				}
 				if !ok {
 					x.miss(fmt.Sprintf("session %d seq %d to dest %d: no echo after %d datagrams", c.ID, seq, d, attempts))
@@ -425,7 +738,8 @@ func (x *exec) sendGarbage(kinds []int, fromLive bool) {
 		x.mu.Unlock()
 		if fromLive && i%3 == 2 && !udpsvc.IsSS2022(x.p.ServerProto) {
 			// from the address of a live session: must be dropped without hurting that session
-			x.clients[i%len(x.clients)].SendRaw(b)
+			cs := x.sessClients()
+			cs[i%len(cs)].SendRaw(b)
 			continue
 		}
 		x.raws[i%len(x.raws)].Send(b, x.spec.ServerAddr)
@@ -433,7 +747,7 @@ func (x *exec) sendGarbage(kinds []int, fromLive bool) {
 }
 
 func runPlan(p *plan, workDir string) (out outcome) {
-	x := &exec{p: p, labels: map[string]bool{}, gLabels: map[string]int{}, forbid: map[[2]uint32]string{}, once: map[[2]uint32]string{}, atMost: map[[2]uint32]bool{}}
+	x := &exec{p: p, labels: map[string]bool{}, gLabels: map[string]int{}, forbid: map[[2]uint32]forbidden{}, once: map[[2]uint32]string{}, atMost: map[[2]uint32]bool{}}
 	scn := scenarioCounter.Add(1) + uint32(os.Getpid())<<12
 	fail := func(sig, format string, args ...any) {
 		if out.violation == "" {
@@ -445,6 +759,10 @@ func runPlan(p *plan, workDir string) (out outcome) {
 	if !udpsvc.WaitFor(5*time.Second, func() bool { return len(udpsvc.RepoGoroutines()) == 0 }) {
 		out.setupErr = fmt.Errorf("repo goroutines alive before the scenario:\n%s", udpsvc.Summaries(udpsvc.RepoGoroutines()))
 		return
+	}
+	// the runtime creates its poller descriptors with the first socket of the process: before the baseline
+	if r, err := udpsvc.NewRawSocket(); err == nil {
+		r.Close()
 	}
 	fdBase, _ := udpsvc.FDs()
 
@@ -464,6 +782,10 @@ func runPlan(p *plan, workDir string) (out outcome) {
 		switch {
 		case d.Port0:
 			w.AddDestPort0(d.Sock)
+			continue
+		case d.AltPort && d.SetupFail != "":
+			// the target's IP with the port of its second socket: sessions that start here cannot be set up
+			w.AddDestAltPort(d.Sock, "")
 			continue
 		case d.AltPort:
 			// the very same name as another dest, other port
@@ -514,10 +836,23 @@ func runPlan(p *plan, workDir string) (out outcome) {
 			return
 		}
 		spec.ClientEndpoint = x.up.Addr.String()
+		if p.UpName {
+			// the relay's client resolves its upstream's name whenever it creates a session
+			x.upName = fmt.Sprintf("up-%x.c11.test", scn)
+			udpsvc.SetName(x.upName, udpsvc.NameRule{IP: x.up.Addr.Addr()})
+			x.names = append(x.names, x.upName)
+			spec.ClientEndpoint = fmt.Sprintf("%s:%d", x.upName, x.up.Addr.Port())
+		}
 	case "chain":
 		spec.Chain = true
 	}
-	svc, err := udpsvc.Start(spec, workDir)
+	if p.BadDest > 0 {
+		// registered without an address: the answer is NXDOMAIN and the questions are counted
+		x.nxName = fmt.Sprintf("nx-%x.c11.test", scn)
+		udpsvc.SetName(x.nxName, udpsvc.NameRule{})
+		x.names = append(x.names, x.nxName)
+	}
+	svc, err := startService(spec, workDir, func(doc map[string]any) { x.amendConfig(doc) })
 	if err != nil {
 		out.setupErr = err
 		return
@@ -530,19 +865,67 @@ func runPlan(p *plan, workDir string) (out outcome) {
 		}
 	}()
 
-	for i := range p.Sessions {
+	newClient := func(home int) (*hclient, error) {
 		codec, err := udpsvc.NewClientCodec(p.ServerProto, spec.ServerKeys, spec.ServerAddr, p.ClientPad)
 		if err != nil {
-			out.setupErr = err
-			return
+			return nil, err
 		}
-		c, err := udpsvc.NewClient(w, uint16(i), codec, spec.ServerAddr)
+		c, err := newHClient(w, uint16(len(x.clients)), codec, spec.RelayAddrs[home%len(spec.RelayAddrs)])
 		if err != nil {
-			out.setupErr = err
-			return
+			return nil, err
 		}
 		x.clients = append(x.clients, c)
-		defer c.Close()
+		return c, nil
+	}
+	defer func() {
+		for _, c := range x.clients {
+			c.Close()
+		}
+	}()
+	x.nsess = len(p.Sessions)
+	x.helpers = map[int]*hclient{}
+	for _, s := range p.Sessions {
+		if _, err := newClient(s.Home); err != nil {
+			out.setupErr = err
+			return
+		}
+	}
+	for i, s := range p.Sessions {
+		// a second client for the sessions that have another client's datagrams interleaved with their replies
+		for _, o := range append(append([]planOp{}, s.A...), s.B...) {
+			if o.Kind == "interleave" && x.helpers[i] == nil && len(spec.RelayAddrs) > 1 {
+				if x.helpers[i], err = newClient(s.Home + 1); err != nil {
+					out.setupErr = err
+					return
+				}
+			}
+		}
+	}
+	if p.Crowd != nil && p.Crowd.FailKind != 0 {
+		// clients that only ever send datagrams for which no relay session can be set up
+		for i := 0; i < p.Crowd.Fails; i++ {
+			f, err := newClient(i)
+			if err != nil {
+				out.setupErr = err
+				return
+			}
+			x.failers = append(x.failers, f)
+		}
+	}
+	if p.Wildcard != "" {
+		homes := map[netip.AddrPort]bool{}
+		v4, v6 := false, false
+		for _, c := range x.sessClients() {
+			homes[c.Server] = true
+			v4 = v4 || c.Server.Addr().Is4()
+			v6 = v6 || !c.Server.Addr().Is4()
+		}
+		if len(homes) > 1 {
+			x.label("sessions-on-different-relay-addresses:" + p.BatchMode)
+		}
+		if v4 && v6 {
+			x.label("sessions-on-127.0.0.x-and-::1:" + p.BatchMode)
+		}
 	}
 	for i := 0; i < 3; i++ {
 		r, err := udpsvc.NewRawSocket()
@@ -557,15 +940,21 @@ func runPlan(p *plan, workDir string) (out outcome) {
 	phase := func(get func(planSession) []planOp, garbage []int, first bool) {
 		var wg sync.WaitGroup
 		start := make(chan struct{})
-		for i, c := range x.clients {
-			ops := get(p.Sessions[i])
-			gf := p.Sessions[i].GarbageFirst
+		for i, c := range x.sessClients() {
+			sess := p.Sessions[i]
+			ops := get(sess)
 			wg.Go(func() {
 				<-start
-				if first && gf > 0 {
-					x.garbageFirst(c, gf)
+				if first && sess.FailFirst != failUpstreamDown {
+					// (with failUpstreamDown the first datagrams of the socket were sent in phase 0)
+					if sess.GarbageFirst > 0 {
+						x.garbageFirst(c, sess.GarbageFirst)
+					}
+					if sess.FailFirst != 0 {
+						x.failFirst(c, sess.FailFirst)
+					}
 				}
-				x.runOps(c, ops, gf)
+				x.runOps(c, ops, sess)
 			})
 		}
 		if len(garbage) > 0 {
@@ -575,21 +964,46 @@ func runPlan(p *plan, workDir string) (out outcome) {
 		wg.Wait()
 	}
 
+	tPhase := time.Now()
+	lap := func(what string) {
+		if envSet("VERIF_DEBUG_PHASES") {
+			fmt.Fprintf(os.Stderr, "C11 phase %s: %v\n", what, time.Since(tPhase).Round(time.Millisecond))
+		}
+		tPhase = time.Now()
+	}
+	// phase 0: first datagrams of some sessions while the default client's upstream is unavailable
+	x.phase0()
+	lap("0")
+
 	// phase A: all sessions concurrently
 	phase(func(s planSession) []planOp { return s.A }, nil, true)
+
+	lap("A")
+	// crowd: failed set-ups, then established sessions burst at the same time
+	if p.Crowd != nil && !x.abort.Load() {
+		x.crowd()
+		lap("crowd")
+	}
 
 	// fenced garbage check: with every session established and idle, garbage must not change the
 	// number of relay goroutines or sockets. The fence is an echo on every live session: the
 	// listener socket is FIFO and read by one goroutine, so the garbage was processed before it.
 	fence := func(tag string) {
 		var wg sync.WaitGroup
-		for i, c := range x.clients {
+		for i, c := range x.sessClients() {
 			d := lastDest(p.Sessions[i])
 			wg.Go(func() {
 				if x.abort.Load() {
 					return
 				}
-				if seq, ok, n := c.Paced(d, 8, pacedWait, pacedTries); !ok {
+				seq, ok, n := c.Paced(d, 8, pacedWait, pacedTries)
+				if n > 1 {
+					x.label("paced-retried")
+					if envSet("VERIF_DEBUG") {
+						fmt.Fprintf(os.Stderr, "C11 paced retried: session %d seq %d dest %d (%s fence): %d datagrams\n", c.ID, seq, d, tag, n)
+					}
+				}
+				if !ok {
 					x.miss(fmt.Sprintf("%s fence: session %d seq %d: no echo after %d datagrams", tag, c.ID, seq, n))
 				}
 			})
@@ -620,9 +1034,12 @@ func runPlan(p *plan, workDir string) (out outcome) {
 		x.label("fenced-garbage")
 	}
 
+	lap("garbage fence")
 	// phase B: sessions concurrently, garbage interleaved
 	phase(func(s planSession) []planOp { return s.B }, p.GarbageB, false)
+	lap("B")
 	fence("final")
+	lap("final fence")
 	time.Sleep(30 * time.Millisecond) // let late echoes of bursts arrive before judging
 
 	x.judge(&out, fail)
@@ -630,6 +1047,7 @@ func runPlan(p *plan, workDir string) (out outcome) {
 	// stop and account
 	dur, ok := svc.Stop(90 * time.Second)
 	stopped = true
+	lap("judge+stop")
 	if !ok {
 		fail("stop-did-not-return", "Manager.Run still running %v after cancel", dur)
 		return
@@ -646,7 +1064,7 @@ func runPlan(p *plan, workDir string) (out outcome) {
 	}
 	if !udpsvc.WaitFor(5*time.Second, func() bool { n, _ := udpsvc.FDs(); return n <= fdBase }) {
 		n, s := udpsvc.FDs()
-		fail("resources-after-stop", "descriptors remain after Run returned: %d (sockets %d), baseline %d", n, s, fdBase)
+		fail("resources-after-stop", "descriptors remain after Run returned: %d (sockets %d), baseline %d: %v", n, s, fdBase, fdLinks())
 	}
 
 	out.liveMiss = x.liveMiss
@@ -656,6 +1074,45 @@ func runPlan(p *plan, workDir string) (out outcome) {
 	sort.Strings(out.labels)
 	x.finishEvidence(&out)
 	return
+}
+
+// amendConfig adds what udpsvc.Spec cannot say (round 6): the routes and the client behind the SetupFail
+// destinations. The routes apply to the client-facing server only ("srv"; a chained hop keeps its own route).
+func (x *exec) amendConfig(doc map[string]any) {
+	p, w := x.p, x.w
+	if p.RejectDest <= 0 && p.BadDest <= 0 {
+		return
+	}
+	router, _ := doc["router"].(map[string]any)
+	if router == nil {
+		router = map[string]any{}
+		doc["router"] = router
+	}
+	routes, _ := router["routes"].([]any)
+	clients, _ := doc["clients"].([]any)
+	altPort := func(dest int) uint16 { return w.SockAddr(w.NSock() + p.Dests[dest].Sock).Port() }
+	if p.RejectDest > 0 {
+		routes = append(routes, map[string]any{"name": "rej-port", "network": "udp", "fromServers": []string{"srv"}, "toPorts": []uint16{altPort(p.RejectDest)}, "client": "reject"})
+	}
+	if p.BadDest > 0 {
+		// an upstream name nobody knows: the owned resolver answers NXDOMAIN; 127.0.0.1:1: nothing listens there
+		nx := x.nxName + ":9"
+		bad := map[string]any{"name": "bad", "enableUDP": true, "mtu": 1500}
+		switch p.BadClient {
+		case "ss2022-nxname":
+			bad["protocol"], bad["endpoint"], bad["psk"] = "2022-blake3-aes-128-gcm", nx, keyBytes(p.Seed, 31, 16)
+		case "socks5-dead":
+			bad["protocol"], bad["endpoint"] = "socks5", "127.0.0.1:1"
+		default:
+			bad["protocol"], bad["endpoint"] = "none", nx
+		}
+		clients = append(clients, bad)
+		routes = append(routes, map[string]any{"name": "to-bad", "network": "udp", "fromServers": []string{"srv"}, "toPorts": []uint16{altPort(p.BadDest)}, "client": "bad"})
+		// with more than one client the default must be named
+		router["defaultUDPClientName"] = "out"
+	}
+	router["routes"] = routes
+	doc["clients"] = clients
 }
 
 func lastDest(s planSession) int {
@@ -760,9 +1217,9 @@ func (x *exec) judge(out *outcome, fail func(sig, format string, args ...any)) {
 		if d.Name != "" {
 			nameUsed = true
 		}
-		if why, bad := x.forbid[[2]uint32{uint32(t.Session), t.Seq}]; bad && a.Sock >= 0 {
-			fail("unresolvable-name-datagram-delivered", "session %d seq %d was addressed to %s while the resolver answered %s for that name, yet it arrived at socket %d (%s) from %s",
-				t.Session, t.Seq, w.DestAddr(int(t.Target)), why, a.Sock, w.SockAddr(a.Sock), a.From)
+		if f, bad := x.forbid[[2]uint32{uint32(t.Session), t.Seq}]; bad && (a.Sock >= 0 || f.anywhere) {
+			fail(f.sig, "session %d seq %d was addressed to %s while %s, yet it arrived at %s from %s",
+				t.Session, t.Seq, w.DestAddr(int(t.Target)), f.why, where, a.From)
 			continue
 		}
 		if a.Sock >= 0 {
@@ -823,7 +1280,11 @@ func (x *exec) judge(out *outcome, fail func(sig, format string, args ...any)) {
 			if len(lost) > 6 {
 				lost = append(lost[:6], fmt.Sprintf("... %d in total", len(lost)))
 			}
-			x.miss("backlog-datagram-lost: never observed at its destination: " + strings.Join(lost, "; "))
+			sig := "backlog-datagram-lost"
+			if strings.Contains(strings.Join(lost, " "), "crowd-datagram-lost") {
+				sig = "crowd-datagram-lost"
+			}
+			x.miss(sig + ": never observed at its destination: " + strings.Join(lost, "; "))
 		}
 	}
 
@@ -867,6 +1328,11 @@ func (x *exec) judge(out *outcome, fail func(sig, format string, args ...any)) {
 				if eps[e] == r.From {
 					fromOK = true
 				}
+			}
+			if !fromOK && !slices.Contains(eps, r.From) {
+				fail("reply-from-another-clients-relay-address", "%s: the reply to seq %d came from relay address %s, which this client has never talked to (it sent that datagram to %s; relay addresses used by this client in order: %v)",
+					at, t.Seq, r.From, eps[e0], eps)
+				continue
 			}
 			if !fromOK {
 				fail("reply-from-abandoned-relay-address", "%s: the reply to seq %d came from relay address %s, but that datagram was sent to %s (relay addresses used by this client in order: %v)",
@@ -958,4 +1424,23 @@ func (x *exec) finishEvidence(out *outcome) {
 	}
 	out.sample = map[string]any{"class": p.class(), "arrivals": len(arr), "replies": nrep, "liveMiss": len(x.liveMiss)}
 	_ = binary.BigEndian
+}
+
+// failGap: development knob VERIF_C11_FAILGAP_MS - a fixed wait for the failing set-up to finish.
+func failGap() time.Duration {
+	var ms int
+	fmt.Sscan(os.Getenv("VERIF_C11_FAILGAP_MS"), &ms)
+	return time.Duration(ms) * time.Millisecond
+}
+
+// fdLinks lists what the open descriptors are (for the resources-after-stop message).
+func fdLinks() []string {
+	var out []string
+	ents, _ := os.ReadDir("/proc/self/fd")
+	for _, e := range ents {
+		if l, err := os.Readlink("/proc/self/fd/" + e.Name()); err == nil {
+			out = append(out, e.Name()+"="+l)
+		}
+	}
+	return out
 }
